@@ -3,6 +3,7 @@ package rules
 import (
 	"encoding/json"
 	"fmt"
+	"go/types"
 	"os"
 	"path/filepath"
 	"strings"
@@ -10,6 +11,7 @@ import (
 	"golang.org/x/tools/go/ssa"
 
 	"verif/tool/absint"
+	"verif/tool/load"
 )
 
 // Page summaries of the eight mapping functions (DESIGN.md §4 C04/C05).
@@ -53,17 +55,34 @@ type MapperSums struct {
 
 // summarize runs the abstract interpreter once per 8 KiB page.
 func summarize(ctx *Ctx, fn *ssa.Function) (res [nPages]PageSum, steps int) {
-	ip := absint.New()
+	// the package-level variables of the mapper's package (and of the shared helpers) hold
+	// what their initialisers put there: region tables are read from the interpreted init
+	rel := ""
+	if fn.Pkg != nil {
+		rel = strings.TrimPrefix(strings.TrimPrefix(fn.Pkg.Pkg.Path(), load.ModulePath), "/")
+	}
+	w := NewWorld(ctx, "mapping/util", rel)
+	ip := w.IP
+	// the value the initialiser gave util.ErrUnmappedAddress: results equal to it are
+	// reported under the variable's name
+	errName, errValKey := "mapping/util.ErrUnmappedAddress", ""
+	if gp, g, err := w.GlobalPtr(ctx, "mapping/util", "ErrUnmappedAddress"); err == nil {
+		errValKey = strings.TrimPrefix(absint.ValKey(ip.Load(w.NewState(), gp, g.Type().(*types.Pointer).Elem())), "top:")
+	}
 	for page := 0; page < nPages; page++ {
 		ip.Reset()
+		ip.UnrollLoops = true // table-driven mappers: a loop over constant regions, every test decided by the page
 		in := ip.In.Atom("in", pageBits, 1<<pageBits-1)
 		// input = page<<13 | in(0..12): low bits are literals of the symbolic offset
 		arg := absint.NewSym(32, in, false)
 		arg = ip.Ops.Or(ip.Ops.Shl(absint.NewConst(32, uint64(page), false), absint.NewConst(32, pageBits, false)), arg)
-		st := &absint.State{Heap: absint.NewHeap(nil)}
+		st := w.NewState()
 		r, out := ip.Call(fn, []absint.Val{arg}, nil, st)
 		steps += ip.Steps()
 		res[page] = classify(ip, r, out, in)
+		if errValKey != "" && res[page].ErrKey == errValKey {
+			res[page].ErrKey = errName
+		}
 	}
 	return
 }
